@@ -2806,6 +2806,14 @@ sse_rule_subusl_slow (OrcCompiler *p, void *user, OrcInstruction *insn)
   orc_sse_emit_psrld_imm (p, 1, tmp);
   orc_sse_emit_psubd (p, tmp, tmp2);
 
+  /* the halved operands lost bit 0: a > b also holds when the halves are
+   * equal and only a has bit 0 set */
+  orc_sse_emit_movdqa (p, src1, tmp);
+  orc_sse_emit_pandn (p, dest, tmp);
+  orc_sse_emit_pslld_imm (p, 31, tmp);
+  orc_sse_emit_psrld_imm (p, 31, tmp);
+  orc_sse_emit_psubd (p, tmp, tmp2);
+
   /* turn overflow bit into mask */
   orc_sse_emit_psrad_imm (p, 31, tmp2);
 
